@@ -4,7 +4,8 @@ M : spec/MC_C03.tla - for two cells sharing a facet and the 2x2 lattices, under 
     admissible local vertex orders, TLC decides for which (mesh constructor, family layout) pairs the DESIGN
     (DOF numbering dofs.py:264-334, H(div) sign from f2t, H(curl) sign from global vertex ids, per-cell sorting
     of triangles) is direction / sign consistent.  MC_C03_quadp.cfg is the named deviation
-    QuadPFacetModesUnoriented (DESIGN section 7 #11), expected to be violated and matched by a known finding.
+    QuadPFacetModesUnoriented (DESIGN section 7 #11), expected to be violated and matched by a known finding;
+    MC_C03_quadn1_prerepair.cfg is the regression model of ElementQuadN1 before fix f058432 (must be refuted).
 R : the meshes enumerated by TLC are built with the real classes and the representative element of every layout
     is driven on them (traces must be continuous where the model says consistent).
 L : for every element of the conforming list (spec/Conformity.tla ElemClass) and universe / random / curved
@@ -269,7 +270,7 @@ def generate(tier, seed):
 
 REPRESENTATIVES = {'tri': ['ElementTriP3', 'ElementTriRT2', 'ElementTriN2', 'ElementTriMorley'],
                    'tri-asgiven': ['ElementTriP2', 'ElementTriRT1', 'ElementTriN1'],
-                   'quad': ['ElementQuad2', 'ElementQuadRT1', 'ElementQuadN1', 'ElementQuadP3'],   # last two: named deviations
+                   'quad': ['ElementQuad2', 'ElementQuadRT1', 'ElementQuadN1', 'ElementQuadP3'],   # last one: named deviation
                    'quad-unshifted': ['ElementQuadP3', 'ElementQuadN1'],
                    'tet': ['ElementTetP2', 'ElementTetRT1', 'ElementTetN1'],
                    'hex': ['ElementHex2', 'ElementHexRT1']}
@@ -278,9 +279,16 @@ REPRESENTATIVES = {'tri': ['ElementTriP3', 'ElementTriRT2', 'ElementTriN2', 'Ele
 def model(ctx):
     out_file = os.path.join(ctx.scratch, 'c03_universe.json')
     cfg = 'MC_C03_thorough.cfg' if ctx.tier == 'thorough' else 'MC_C03.cfg'
-    ctx.model_must_hold('MC_C03', cfg, env={'OUT_FILE': out_file}, timeout=3000, label='design consistent (in-claim pairs)')
+    ctx.model_must_hold('MC_C03', cfg, env={'OUT_FILE': out_file}, timeout=3000, workers=8, label='design consistent (in-claim pairs)')
     ctx.model_must_hold('MC_C03', 'MC_C03_quadp.cfg', env={'OUT_FILE': ''}, timeout=600, workers=2,
                         label='named deviation QuadPFacetModesUnoriented')
+    # regression model (sensitivity of the design layer): the reference-tangent table of ElementQuadN1 before
+    # fix f058432 must be refuted by TLC; the current table is part of the main configuration
+    old = ctx.tlc_model('MC_C03', 'MC_C03_quadn1_prerepair.cfg', env={'OUT_FILE': ''}, timeout=600, workers=2,
+                        label='regression model: ElementQuadN1 reference tangents before fix f058432')
+    ctx.notes['pre_repair_quadn1_tangent_table_refuted_by_tlc'] = bool(old['violated'])
+    if not old['violated']:
+        raise MachineryError('MC_C03 does not refute the pre-repair ElementQuadN1 tangent table')
     return out_file
 
 
@@ -316,11 +324,11 @@ def run(ctx):
         fut = tp.submit(model, ctx)
         recs = generate(ctx.tier, ctx.seed)
         scs = procs.map(_scen, [(f'C03-{k}', r) for k, r in enumerate(recs)])
-        ctx.validate('TraceC03', scs)
+        ctx.validate('TraceC03', scs, jvms=8)
         out_file = fut.result()
         rrecs = replay_recipes(out_file, ctx.tier, np.random.default_rng(ctx.seed + 2003))
         rscs = procs.map(_scen, [(f'C03-R{k}', r) for k, r in enumerate(rrecs)])
-        ctx.validate('TraceC03', rscs)
+        ctx.validate('TraceC03', rscs, jvms=8)
     finally:
         procs.close()
     keys = {json.dumps([r['kind'], r['p'], r['t'], r.get('ctor'), r['elem'], r.get('curved')]) for r in recs + rrecs}
